@@ -248,6 +248,8 @@ func voteProtocol(cx *CheckCtx, names []string) int {
 }
 
 func runC17Common(cx *CheckCtx, w *World) {
+	checkLoaders(cx, "common")
+	checkLoaders(cx, "contracts/neofs")
 	// ---- common.Vote / TryPurgeVotes
 	voteFn := cx.pkgFunc("common", "Vote")
 	purgeFn := cx.pkgFunc("common", "TryPurgeVotes")
@@ -306,6 +308,7 @@ func runC17Common(cx *CheckCtx, w *World) {
 		id, from := tb.mk("param", "1:id", 0), tb.mk("param", "2:from", 0)
 		cur := tb.mk("call", "native/ledger.CurrentIndex", 0)
 		nApp, okRefresh, okNew, okCarry := 0, false, false, false
+		var newBlock, carryBlock *ssa.BasicBlock
 		var fromParam ssa.Value
 		for _, p := range voteFn.Params {
 			if p.Name() == "from" {
@@ -340,6 +343,7 @@ func runC17Common(cx *CheckCtx, w *World) {
 				}
 				ids, vts, hts := setOf(tb.field(et, "ID")), setOf(tb.field(et, "Voters")), setOf(tb.field(et, "Height"))
 				if len(ids) == 1 && ids[id] && len(hts) == 1 && hts[cur] {
+					newBlock = c.Block()
 					// brand-new ballot
 					for vt := range vts {
 						if vt.Op == "arr" && len(vt.Args) == 1 && vt.Args[0] == from && len(vts) == 1 {
@@ -364,10 +368,186 @@ func runC17Common(cx *CheckCtx, w *World) {
 						app = true
 					}
 				}
+				carryBlock = c.Block()
 				okCarry = ids[tb.field(el, "ID")] && vts[tb.field(el, "Voters")] && hts[tb.field(el, "Height")]
 				okRefresh = app && len(vts) == 2 && hts[cur] && len(hts) == 2 && (len(ids) == 1 || (len(ids) == 2 && ids[id]))
 			}
 		}
+		// polarity and loop shape: a ballot of the loop is kept (carried or refreshed) only on the
+		// "not expired" side of the window test; the new ballot is appended only on the "not found"
+		// side; the loop over the ballots is left only on exhaustion or by returning the count of a
+		// voter who already voted
+		okSides, whySides := carryBlock != nil && newBlock != nil, "the carry / new-ballot appends are gone"
+		if okSides {
+			whySides = ""
+			nWin, nFound := 0, 0
+			for _, b := range voteFn.Blocks {
+				ifi, isIf := b.Instrs[len(b.Instrs)-1].(*ssa.If)
+				if !isIf {
+					continue
+				}
+				t := tb.Term(tb.root, ifi.Cond)
+				if side, isWin := expiredSide(t); isWin {
+					nWin++
+					if !viaEdge(b, 1-side, carryBlock) {
+						okSides, whySides = false, "an expired ballot can be kept (or a live one dropped): the window test guards the wrong side"
+					}
+				}
+				if t.Op == "bin" && t.Name == "<" && len(t.Args) == 2 && t.Args[0].Op == "phi" {
+					if n, isC := t.Args[1].IntConst(); isC && n == 0 {
+						nFound++
+						if !viaEdge(b, 0, newBlock) {
+							okSides, whySides = false, "a new ballot is created although the decision's ballot was found (or not created when it was not)"
+						}
+					}
+				}
+			}
+			if nWin != 1 || nFound != 1 {
+				okSides, whySides = false, "the window test or the 'found' test is gone"
+			}
+			if h := innermostLoop(carryBlock); h != nil {
+				for _, e := range loopExits(h) {
+					if e.from == h {
+						continue
+					}
+					if _, isRet := e.to.Instrs[len(e.to.Instrs)-1].(*ssa.Return); isRet && len(e.to.Instrs) <= 3 {
+						continue // "already voted": return the count
+					}
+					okSides, whySides = false, "the loop over the ballots can be left before every ballot was carried over"
+				}
+			} else {
+				okSides, whySides = false, "the carry is not in a loop over the ballots"
+			}
+		}
+		// TryPurgeVotes: 'false' only on the alive side of its window test, the purge only after every
+		// ballot was found expired
+		okPurge, whyPurge := false, "the window test of TryPurgeVotes is gone"
+		ptb := newTermBuilder(w, purgeFn)
+		for _, b := range purgeFn.Blocks {
+			ifi, isIf := b.Instrs[len(b.Instrs)-1].(*ssa.If)
+			if !isIf {
+				continue
+			}
+			side, isWin := expiredSide(ptb.Term(ptb.root, ifi.Cond))
+			if !isWin {
+				continue
+			}
+			okPurge, whyPurge = true, ""
+			for _, rb := range purgeFn.Blocks {
+				r, isR := rb.Instrs[len(rb.Instrs)-1].(*ssa.Return)
+				if !isR || len(r.Results) != 1 {
+					continue
+				}
+				c, isC := r.Results[0].(*ssa.Const)
+				if !isC || c.Value == nil {
+					okPurge, whyPurge = false, "the result is not a constant per path"
+					continue
+				}
+				if !constant.BoolVal(c.Value) && !viaEdge(b, 1-side, rb) {
+					okPurge, whyPurge = false, "'ballots in progress' is answered on the expired side of the window test"
+				}
+				if constant.BoolVal(c.Value) {
+					h := innermostLoop(b)
+					if h == nil {
+						okPurge, whyPurge = false, "the window test is not in a loop over the ballots"
+						continue
+					}
+					for _, e := range loopExits(h) {
+						if e.from != h && blockReaches(e.to, rb, nil) {
+							okPurge, whyPurge = false, "the purge can be reached before every ballot was found expired"
+						}
+					}
+				}
+			}
+		}
+		cx.decide(okPurge, "window", "common.TryPurgeVotes/sides", "false exactly when a ballot inside the window is met; the purge after all were found expired", "common.TryPurgeVotes: "+whyPurge, w.pos(purgeFn.Pos()))
+		// RemoveVotes removes the ballot at the index where the id matched
+		if rmFn := cx.pkgFunc("common", "RemoveVotes"); rmFn != nil {
+			okRmI, whyRmI := false, "no util.Remove call"
+			for _, b := range rmFn.Blocks {
+				for _, ins := range b.Instrs {
+					c, isC := ins.(*ssa.Call)
+					if !isC || c.Common().StaticCallee() == nil || fq(c.Common().StaticCallee()) != "util.Remove" || len(c.Common().Args) != 2 {
+						continue
+					}
+					okRmI, whyRmI = false, "the removed index is not the loop index at which the ballot id matched"
+					phi, isPhi := stripConv(c.Common().Args[1]).(*ssa.Phi)
+					if !isPhi {
+						// the search extracted into a helper: it returns a loop index only on the equal
+						// side of an id test and a constant only after exhaustion
+						if hc, isCall := stripConv(c.Common().Args[1]).(*ssa.Call); isCall {
+							if h := hc.Common().StaticCallee(); h != nil && h.Pkg == rmFn.Pkg && h.Blocks != nil {
+								goodH, nIdx := true, 0
+								for _, hb := range h.Blocks {
+									r, isR := hb.Instrs[len(hb.Instrs)-1].(*ssa.Return)
+									if !isR || len(r.Results) != 1 {
+										continue
+									}
+									if _, isConst := r.Results[0].(*ssa.Const); isConst {
+										exh := false
+										for _, p := range hb.Preds {
+											if isLoopHeader(p) && !loopBlocks(p)[hb] {
+												exh = true
+											}
+										}
+										if !exh || len(hb.Preds) != 1 {
+											goodH = false
+										}
+										continue
+									}
+									nIdx++
+									onEq := false
+									for _, tb2 := range h.Blocks {
+										ifi, isIf := tb2.Instrs[len(tb2.Instrs)-1].(*ssa.If)
+										if !isIf {
+											continue
+										}
+										if _, _, isEq := isEqualityCall(ifi.Cond); isEq && viaEdge(tb2, 0, hb) {
+											onEq = true
+										}
+									}
+									if !onEq {
+										goodH = false
+									}
+								}
+								if goodH && nIdx >= 1 {
+									okRmI, whyRmI = true, ""
+								}
+							}
+						}
+						continue
+					}
+					// one edge from the loop header (not found: 0) and the others from the equal side of an id test
+					good := true
+					nMatch := 0
+					for i, p := range phi.Block().Preds {
+						if isLoopHeader(p) {
+							continue
+						}
+						nMatch++
+						// the value on this edge is the loop index, the edge is on the equal side of the id test
+						found := false
+						for _, tb2 := range rmFn.Blocks {
+							ifi, isIf := tb2.Instrs[len(tb2.Instrs)-1].(*ssa.If)
+							if !isIf {
+								continue
+							}
+							if _, _, isEq := isEqualityCall(ifi.Cond); isEq && viaEdge(tb2, 0, p) {
+								found = true
+							}
+						}
+						if _, isConst := phi.Edges[i].(*ssa.Const); isConst || !found {
+							good = false
+						}
+					}
+					if good && nMatch >= 1 {
+						okRmI, whyRmI = true, ""
+					}
+				}
+			}
+			cx.decide(okRmI, "window", "common.RemoveVotes/index", "removes the ballot at the index where the id matched", "common.RemoveVotes: "+whyRmI+" — another decision's ballot is removed", w.pos(rmFn.Pos()))
+		}
+		cx.decide(okSides, "window", "common.Vote/sides", "expired ballots are dropped and only those; a new ballot only when none was found; every ballot is visited", "common.Vote: "+whySides, w.pos(voteFn.Pos()))
 		cx.decide(okRefresh, "window", "common.Vote/refresh", "a counted vote stores {id, voters+from, Height = current height}", "a counted vote does not refresh the ballot's height (or id/voters): the 20-block window is measured from the first vote instead of the previous one", w.pos(voteFn.Pos()))
 		cx.decide(okNew, "window", "common.Vote/new", "a new ballot is {id, [from], Height = current height}", "a new ballot is not created as {id, [voter], current height}", w.pos(voteFn.Pos()))
 		cx.decide(okCarry, "window", "common.Vote/carry", "ballots of other decisions are carried over unchanged", "ballots of other decision ids are not carried over", w.pos(voteFn.Pos()))
@@ -530,6 +710,39 @@ func runC19(cx *CheckCtx) {
 					okA = false
 				}
 			}
+			// accepts every documented deposit: an abort is raised only with amount ≤ 0, amount > 9000
+			// GAS, a caller other than GAS or data of a wrong length established
+			okRej, nRej := true, 0
+			data := paramTerm(tb, m, "data")
+			var callerLits []int32
+			for id := int32(1); id < int32(len(a.lt.lits)); id++ {
+				if a.lt.lits[id].Kind == KCaller {
+					callerLits = append(callerLits, -id)
+				}
+			}
+			for _, s := range a.Sites(func(s *Site) bool { return strings.HasSuffix(s.Callee, ".AbortWithMessage") }) {
+				nRej++
+				q := append([]int32{a.litLtC(amt, 1), -a.litLtC(amt, maxGAS+1), -a.litEqC(a.litLen(data), 20)}, callerLits...)
+				if !a.holdsAt(s.In, q...) {
+					okRej = false
+				}
+			}
+			// … and the only quiet return is the one for the candidate-fee marker
+			okQuiet := true
+			var markerLits []int32
+			for id := int32(1); id < int32(len(a.lt.lits)); id++ {
+				l := a.lt.lits[id]
+				if l.Kind == KEq && (l.A == data && l.B.Op == "const" || l.B == data && l.A.Op == "const") {
+					markerLits = append(markerLits, id)
+				}
+			}
+			for _, ex := range a.Exits() {
+				if !a.holdsAt(ex.State, append([]int32{a.eLit(dep)}, markerLits...)...) {
+					okQuiet = false
+				}
+			}
+			cx.decide(okQuiet && len(markerLits) > 0, "deposit", "neofs.OnNEP17Payment/reported", "every accepted payment is reported, except the one carrying the candidate-fee marker", "a GAS payment can be accepted without a Deposit notification (received GAS is not accounted to anybody)", dep.Where(w))
+			cx.decide(okRej && nRej > 0, "deposit", "neofs.OnNEP17Payment/accepts", "aborts only for amount ≤ 0, amount > 9000 GAS, a non-GAS caller or data that is not 20 bytes (or empty)", "a deposit inside (0, 9000 GAS] paid in GAS is refused", dep.Where(w))
 			cx.decide(okA, "deposit", "neofs.OnNEP17Payment/args", "Deposit(sender, amount, 20-byte data | sender, tx)", "the Deposit notification carries "+termList(args)+": amount or receiver differ from what was paid", dep.Where(w))
 		}
 	}
@@ -725,6 +938,12 @@ func runC19(cx *CheckCtx) {
 				if okL {
 					okL, _ = everyElement(a, nodeT, nil)
 				}
+				if okL {
+					// the loop is gone round only when the share is 0
+					okL, _ = alwaysReached(a, nodeT, func(st *CNF) bool {
+						return a.holdsAt(st, a.litEqC(a.Canon(st, nodeT.Args[2]), 0)) || a.holdsAt(st, a.litEqC(nodeT.Args[2], 0))
+					})
+				}
 				cx.decide(okL, "emit", "alphabet.Emit/all-nodes", "one transfer per Inner Ring key, loop-invariant amount, no early exit", "not every Inner Ring node receives the same share", nodeT.Where(w))
 			}
 			cx.decide(neoT.Args[0] == self && neoT.Args[1] == self, "emit", "alphabet.Emit/claim", "NEO is transferred from the contract to itself", "Emit moves NEO elsewhere", neoT.Where(w))
@@ -798,3 +1017,25 @@ func constHashIs(cx *CheckCtx, pkg, s string) bool {
 
 func gasHashIs(cx *CheckCtx, s string) bool { return constHashIs(cx, "gas", s) }
 func neoHashIs(cx *CheckCtx, s string) bool { return constHashIs(cx, "neo", s) }
+
+// expiredSide: t is the window test over (current height − ballot height) and
+// the constant 20; returns which successor of the If (0 = true side) is the
+// "expired" one.
+func expiredSide(t *Term) (int, bool) {
+	if t.Op != "bin" || len(t.Args) != 2 {
+		return 0, false
+	}
+	isGap := func(z *Term) bool {
+		return z.Op == "sum" && z.contains(func(x *Term) bool { return isCall(x, "native/ledger.CurrentIndex") }) && z.contains(func(x *Term) bool { return x.Op == "field" && x.Name == "Height" })
+	}
+	x, y := t.Args[0], t.Args[1]
+	cx, okx := x.IntConst()
+	cy, oky := y.IntConst()
+	switch {
+	case t.Name == "<" && okx && cx == 20 && isGap(y): // 20 < gap: true = expired
+		return 0, true
+	case t.Name == "<=" && oky && cy == 20 && isGap(x): // gap <= 20: true = alive
+		return 1, true
+	}
+	return 0, false
+}
